@@ -4,6 +4,7 @@ CONSTANTS MaxNodes = 6
  Aligns = {1, 2, 3, 4, 8, 16}
  BinLens = {0, 1, 2, 3, 4, 5, 7, 8, 9}
  Pats = {0}
+ NegOffs = {2}
 INIT GInit
 NEXT GNext
 CHECK_DEADLOCK FALSE
